@@ -261,7 +261,10 @@ where
                         case(sys),
                     );
                 } else if per_ring[r] > pend_before {
-                    rep.violation(&format!("C11:{cfgname}:spurious-dispatch"), &format!("ring {r}: {} dispatches for {pend_before} kick(s)", per_ring[r]), case(sys));
+                    // more handler calls than kicks on an active ring: the statement does not forbid
+                    // it (a handler call without work is harmless); recorded, not reported
+                    rep.outcome("kick-dispatched-more-often-than-kicked(info)");
+                    rep.nontrivial += 1;
                 } else {
                     rep.outcome("kick-dispatched");
                     rep.nontrivial += 1;
